@@ -50,8 +50,14 @@ impl PendingTxs {
     }
 
     pub fn push(&mut self, tx: TransactionView, cycles: Cycle) {
-        self.txs
-            .insert(tx.hash(), (tx.data(), cycles, HashSet::new()));
+        let hash = tx.hash();
+        // a resubmitted transaction keeps the record of the peers it has been announced to
+        let peers = self
+            .txs
+            .remove(&hash)
+            .map(|(_, _, peers)| peers)
+            .unwrap_or_default();
+        self.txs.insert(hash, (tx.data(), cycles, peers));
         if self.txs.len() > self.limit {
             self.txs.pop_front();
         }
